@@ -138,6 +138,70 @@ func (a aliasImpl) w(b uint8, r int32, bs []uint8, m map[int32]byte) I {
 	return a.n + I(b) + I(r) + I(len(bs)+len(m))
 }
 
+// a method expression of an interface type is the only use of the unexported method
+type shape interface{ area() I }
+type sq struct{ s I }
+
+func (q sq) area() I { return q.s * q.s }
+
+type circ struct{ r I }
+
+func (c *circ) area() I { return 3 * c.r * c.r }
+
+// unexported methods of generic types whose signatures mention generic named types
+// instantiated with the receiver's type parameters
+type gnode[T any] struct {
+	v    T
+	next *gnode[T]
+}
+type glist[T any] struct {
+	head *gnode[T]
+	n    I
+}
+
+func (l *glist[T]) push(n *gnode[T]) { n.next = l.head; l.head = n; l.n++ }
+func (l *glist[T]) first() *gnode[T] { return l.head }
+
+type gentry[K comparable, V any] struct {
+	k K
+	v V
+}
+type gtable[K comparable, V any] struct{ es []gentry[K, V] }
+
+func (t *gtable[K, V]) put(e gentry[K, V]) { t.es = append(t.es, e) }
+func (t *gtable[K, V]) find(k K) *gentry[K, V] {
+	for i := range t.es {
+		if t.es[i].k == k {
+			return &t.es[i]
+		}
+	}
+	return nil
+}
+
+type gpair[A, B any] struct {
+	a A
+	b B
+}
+
+func (b box[T]) wrap() gpair[T, string] { return gpair[T, string]{b.v, "w"} }
+func (b box[T]) same(o box[T]) gpair[box[T], []gnode[T]] {
+	return gpair[box[T], []gnode[T]]{o, []gnode[T]{{v: b.v}}}
+}
+
+func genericSigs() string {
+	var l glist[I]
+	l.push(&gnode[I]{v: 4})
+	l.push(&gnode[I]{v: 5})
+	var ls glist[string]
+	ls.push(&gnode[string]{v: "n"})
+	var t gtable[string, I]
+	t.put(gentry[string, I]{"a", 1})
+	t.put(gentry[string, I]{"b", 2})
+	w := box[I]{7}.wrap()
+	sm := box[string]{"x"}.same(box[string]{"y"})
+	return itoa(int(l.first().v+l.n)) + ls.first().v + itoa(int(t.find("b").v)) + btoa(t.find("z") == nil) + itoa(int(w.a)) + w.b + sm.a.v + sm.b[0].v
+}
+
 // a type declared inside a function literal of a generic function
 func litLocal[T any](v T) string {
 	f := func() interface{} {
@@ -225,6 +289,9 @@ func main() {
 	if w, ok := aw.(aliasW); ok {
 		println("AW " + itoa(int(w.w(1, 2, []byte{3}, map[rune]uint8{4: 5}))))
 	}
+	areaOf := shape.area
+	println("ME " + itoa(int(areaOf(sq{3})+areaOf(&circ{2}))))
+	println("GS " + genericSigs())
 	println("OK " + btoa(usedOk) + btoa(usedOk2) + itoa(int(usedVal3)))
 	println("LL " + litLocal(I(@N3@)) + litLocal("s") + litLocal(aliasImpl{1}))
 	println("END")
